@@ -40,7 +40,9 @@ def _join(rng, toks, lead=True):
 COMMENT_WORDS = ["qtot", "0.5", "see", "table", "C-H", "bond", "type", "[", "]", "#", "x;y", "note:", "ai", "aj",
                  # characters that are line ends for str.splitlines() but not for a text file (form feed, NEL from a bad
                  # transcode, unicode line / paragraph separators, the ASCII separators)
-                 "page\x0cbreak", "see\u2028below", "caf\u0085", "a\x1cb", "x\x0by", "\u2029"]
+                 "page\x0cbreak", "see\u2028below", "caf\u0085", "a\x1cb", "x\x0by", "\u2029",
+                 # bracketed words inside comments (a commented-out header, an index, a reference to a section)
+                 "[ angles ]", "[2]", "[bonds]", "see [ pairs ] below"]
 
 
 def _comment_text(rng, allow_hash_start=True):
@@ -212,6 +214,12 @@ def gen_itp(rng, tier, rich, big=None):
     for s in use_secs:
         pairs = per[s]
         if rich and len(pairs) >= 2 and rng.random() < 0.5 or (not rich and len(pairs) >= 2 and rng.random() < 0.08):
+            if rng.random() < 0.2:
+                # the first occurrence holds NO content line at all (a legend and a preprocessor guard), the entries follow
+                # under a second header of the same name
+                blocks.append((s, [{"k": "comment", "text": ";  ai    aj  funct"}, {"k": "pp", "text": "#ifdef FLEXIBLE"}]))
+                blocks.append((s, bond_ops(pairs) + [{"k": "pp", "text": "#endif"}]))
+                continue
             cut = rng.randint(1, len(pairs) - 1)          # the same section name twice ...
             if len(pairs) >= 3 and rng.random() < 0.4:     # ... or three times
                 cut2 = rng.randint(cut + 1, len(pairs)) if cut + 1 <= len(pairs) - 1 else None
